@@ -997,10 +997,11 @@ func main() {
 		deadline = time.Now().Add(40 * time.Minute)
 	}
 	// the adapter allocates a fresh ~1 MB compressor per compressed message while the live heap is tiny: with the
-	// default GOGC the collector would run every few cases
+	// default GOGC the collector would run every few cases; the limit bounds the heap when a collection is slow
 	if os.Getenv("GOGC") == "" {
-		debug.SetGCPercent(800)
+		debug.SetGCPercent(200)
 	}
+	debug.SetMemoryLimit(4 << 30)
 	if os.Getenv("C11_BENCH") != "" {
 		bench(maxEx)
 		return
